@@ -26,7 +26,7 @@ CHECKS = {
 "C08": ("exploration", "Two racing sub-checks (code-action requests sent into an edit: every answer must be a quick fix of the text before or of the text after it; on Rust files the harness times the dictionary reload under the document lock and aims the requests at it). Generated multi-line documents (astral, combining, tabs, LF/CRLF, with/without trailing newline) opened in the real harper-ls under 9 language ids; for every diagnostic a codeAction request with its own range and at every char position inside it; oracle = independent LSP position arithmetic: diagnostic range == reference range of the embedded lint, every inside position returns that lint's fixes, each TextEdit applied like a client == Suggestion::apply on the char span; published set == in-process lints for plain/Markdown/HTML/Typst.",
         "Lone CR line ends are outside the property's domain and are not generated.",
         "property-based testing (proptest) against the real server; reference-model oracle"),
-"C09": ("exploration", "Stateful histories of batches of LSP messages against the real harper-ls; the harness owns the schedule by choosing the order in which it answers the handlers' workspace/configuration requests (= completion order of the in-flight handlers). After every batch the last publication of every document is compared with what a second, trivially sequential harper-ls process publishes for the newest text under the current settings and dictionaries (closed/deleted: empty). Histories include deletions of files, of directories (with/without trailing slash) and of sibling paths, user-dictionary file edits, and configuration changes whose notification arrives after an edit has already pulled the new settings. Four designed-in violations are excluded from the must-hold sub-space by construction and exercised in labelled sub-runs.",
+"C09": ("exploration", "A publication that never arrives is not a timeout: once the server is demonstrably idle its last published diagnostics are compared with the expected ones. Stateful histories of batches of LSP messages against the real harper-ls; the harness owns the schedule by choosing the order in which it answers the handlers' workspace/configuration requests (= completion order of the in-flight handlers). After every batch the last publication of every document is compared with what a second, trivially sequential harper-ls process publishes for the newest text under the current settings and dictionaries (closed/deleted: empty). Histories include deletions of files, of directories (with/without trailing slash) and of sibling paths, user-dictionary file edits, and configuration changes whose notification arrives after an edit has already pulled the new settings. Four designed-in violations are excluded from the must-hold sub-space by construction and exercised in labelled sub-runs.",
         "The harness controls handler completion order, not the tokio worker interleaving between two awaits inside the server (sampled by repetition only).",
         "model-based / differential property testing over scheduled LSP histories (proptest vec(batch) + interpreter)"),
 "C10": ("exploration", "Files created and left behind must be the configured files themselves (scratch files of a failed save included; a user-dictionary setting may name a directory). Invariant over strace -f syscall histories of generated harper-ls sessions (every notification and command except HarperOpen, incl. dictionary saves and the statistics write at shutdown; documents with non-local URIs and with absolute paths of 150-400 bytes; a user dictionary that is a relative symbolic link; dictionary paths changed silently by the client, with a state check that every added word is in the dictionary configured when the server last pulled its settings; one TCP-mode session and one TCP-mode start with port 4000 in use) and of a worker process that pushes generated documents through all front-ends, the harper.js API and statistics export/import: no socket/connect/send/bind/listen beyond the loopback listener, no resolver/TLS files, no exec, and writes only to the configured dictionary and statistics paths. The dependency-set clause is covered by a static cargo-metadata scan reported as an auxiliary.",
